@@ -1196,7 +1196,7 @@ def correspond(ctx):
     corr.rule = ("an instance is non-trivial if the implementation accepted it and emitted JSON; distinct = distinct emitted JSON text "
                  "per model; mutated documents are counted separately (distinct documents)")
     rng = ctx.rng
-    per_model = 1000 if ctx.thorough else 200
+    per_model = 1000 if ctx.thorough else 160
     n_mut = 3 if ctx.thorough else 2
     recipes = [("corpus", r) for r in CORPUS]
     for name in tr.SIX:
